@@ -14,7 +14,7 @@ use std::collections::BTreeSet;
 
 pub struct C04;
 
-pub const SEL_NAMES: &[&str] = &["div", "p", "span", "a", "b", "ul", "li", "section", "h1", "em", "x-foo", "td", "i", "br", "img", "svg", "g", "path", "circle", "math", "mi", "DIV", "Span", "foreignobject", "title"];
+pub const SEL_NAMES: &[&str] = &["div", "p", "span", "a", "b", "ul", "li", "section", "h1", "em", "x-foo", "td", "i", "br", "img", "svg", "g", "path", "circle", "math", "mi", "DIV", "Span", "foreignobject", "title", "1a", "1div", "11p", "1"];
 
 pub fn gen_opts() -> select::GenOpts<'static> {
     select::GenOpts { names: SEL_NAMES, attrs: wl::TREE_ATTRS, values: wl::TREE_VALUES, allow_not: true, allow_escapes: false }
